@@ -840,6 +840,12 @@ def min_chunk_installed(F, R):
                       (r'^v5::client::connector::MqttConnectorService::<A, T>::connect_inner::\{closure#0\}$', 'v5-client')):
         b = F.one(pat)
         sets = [bi for bi, t in b.calls_to(r'::set_min_chunk_size$') if (apath(b, t['args'][1]) or ('',))[-1] == 'min_chunk_size']
+        # ... or the codec is built with the value in place (`Codec::with_inbound_limits(max, cfg.min_chunk_size)` spliced in)
+        import c05
+        for bi, j, s_ in agg_sites(b, r'^v[35]::codec::codec::Codec$'):
+            names_ = s_['rv'].get('names') or []
+            if 'min_chunk_size' in names_ and 'min_chunk_size' in c05.origin_field_names(F, b, s_['rv']['fields'][names_.index('min_chunk_size')], re.compile(TRANSPARENT_CALLS.pattern[:-2] + r'|new)$')):
+                sets.append(bi)
         n += len(sets)
         oks = [bi for bi, j, s in agg_sites(b, r'^std::result::Result$', 'Ok') if s['lhs']['l'] in b.ret_locals]
         bad = [o for o in oks if not b.must_pass(sets, o)]
